@@ -63,7 +63,7 @@ type CrashScenario struct{}
 func (CrashScenario) Name() string { return "crash" }
 
 // (p1 and b.a begin with characters of the store prefixes "pre." and "a.b.")
-var crashIDs = []string{"1", "2", "s1", "s2", "s3", "p1", "b.a"}
+var crashIDs = []string{"1", "2", "s1", "s2", "s3", "s4", "s5", "s6", "s7", "s8", "s9", "p1", "b.a"}
 
 func (CrashScenario) GenCase(r *rand.Rand, prop string) interface{} {
 	c := &CrashCase{Prefix: pick(r, "", "pre", "pre", "a.b")}
@@ -114,6 +114,14 @@ func (CrashScenario) GenCase(r *rand.Rand, prop string) interface{} {
 		c.Ops = append(c.Ops[:at:at], append([]CrashOp{{Kind: "init"}}, c.Ops[at:]...)...)
 	}
 	c.SmallTxn = chance(r, 15)
+	if c.SmallTxn && chance(r, 60) {
+		// more seeds than one such transaction holds: Init then fails as a
+		// whole with ErrTxnTooBig - and must not seed in instalments instead
+		// (seeded change C12y)
+		for i, n := len(c.Seeds), 6+r.IntN(4); i < n; i++ {
+			c.Seeds = append(c.Seeds, IdxMut{ID: "s" + strconv.Itoa(i+1), K: pick(r, idxKeys...), N: pick(r, "x", "y", ""), V: 100 + i})
+		}
+	}
 	for i := 0; i < 3; i++ {
 		c.Queries = append(c.Queries, genIdxQuery(r))
 	}
@@ -420,6 +428,10 @@ func (CrashScenario) Execute(sim *sched.Sim, ci interface{}, prop string, race b
 					// the id and Init's commit: Init has done nothing
 					cr.conflicts++
 					sim.Probe("crash.init-conflict")
+				} else if cr.c.SmallTxn && errors.Is(err, badger.ErrTxnTooBig) {
+					// more seeds than a transaction of this database holds:
+					// Init fails as a whole, nothing is seeded
+					sim.Probe("crash.init-too-big")
 				} else {
 					h.Violate("C12", "init-error", "", "Init failed: "+err.Error())
 				}
@@ -467,7 +479,9 @@ func (CrashScenario) Execute(sim *sched.Sim, ci interface{}, prop string, race b
 			cr.open(img)
 			live0 := beginFreeRun(cr.sim)
 			if err := cr.st.Init(cr.seedsCB); err != nil {
-				h.Violate("C12", "init-error", "", "Init after restart failed: "+err.Error())
+				if !(cr.c.SmallTxn && errors.Is(err, badger.ErrTxnTooBig)) {
+					h.Violate("C12", "init-error", "", "Init after restart failed: "+err.Error())
+				}
 			} else {
 				cr.noteInit()
 			}
@@ -669,15 +683,19 @@ func (cr *crashRun) image(root, where string, torn bool) {
 		cr.h.Violate("C12", "marker-lost", "", "an Init call returned but the crash image has no init marker; "+desc())
 	}
 	// (2) restart procedure: Init with the same seeds, then RebuildIndexes
+	tooBig := false
 	if err := st.Init(cr.seedsCB); err != nil {
-		cr.h.Violate("C12", "init-error", "restart", fmt.Sprintf("Init on the crash image failed: %v; %s", err, desc()))
-		return
+		if !(cr.c.SmallTxn && errors.Is(err, badger.ErrTxnTooBig)) {
+			cr.h.Violate("C12", "init-error", "restart", fmt.Sprintf("Init on the crash image failed: %v; %s", err, desc()))
+			return
+		}
+		tooBig = true // refused as a whole: nothing may have been seeded
 	}
 	after := cr.readAll(st)
 	for _, id := range crashIDs {
 		cr.evals++
 		want := stored[id]
-		if !marker && want == nil {
+		if !marker && want == nil && !tooBig {
 			for _, s := range cr.c.Seeds {
 				if s.ID == id {
 					want = &idxRec{K: s.K, N: s.N, V: s.V}
